@@ -1990,6 +1990,40 @@ silent_all("d16-repaired-on-the-receiving-side", [
 func (s *inProcessClientStream) RecvMsg(m interface{}) error {"""},
 ], "the D16 conversion done by the client stream when it returns a frame's error instead of by the server before sending", ["C02", "C04", "C05", "C08"])
 
+v("C04", "finish-converts-with-convert", "inprocgrpc/in_process.go",
+  "			err = status.FromContextError(err).Err()", "			err = status.Convert(err).Err()",
+  "R4", "conversion-knows-context-errors", "the D16 conversion done with status.Convert: the handler's own ctx.Err() becomes Unknown")
+silent_all("finish-translates-then-converts", [
+    {"file": "inprocgrpc/in_process.go", "old": "			err = status.FromContextError(err).Err()", "new": "			err = status.Convert(internal.TranslateContextError(err)).Err()"},
+], "translator first, then status.Convert: equivalent to FromContextError", ["C04", "C02"])
+
+v("C10", "d18-unary-snapshot-on-goroutine", "inprocgrpc/in_process.go",
+  "		ctx := grpc.NewContextWithServerTransportStream(svrCtx, &sts)", "		_ = svrCtx\n		ctx := grpc.NewContextWithServerTransportStream(makeServerContext(ctx), &sts)",
+  "R3", "md-snapshot-before-return", "pre-fix D18: the unary handler's context is built on the server goroutine")
+v("C10", "stream-snapshot-on-goroutine", "inprocgrpc/in_process.go",
+  "		serverStream.ctx = grpc.NewContextWithServerTransportStream(svrCtx, sts)", "		serverStream.ctx = grpc.NewContextWithServerTransportStream(makeServerContext(svrCtx), sts)",
+  "R3", "md-snapshot-before-return", "the stream handler's context wrapped (again) on the server goroutine")
+v("C10", "accessor-unwraps-to-outermost", "inprocgrpc/in_process.go",
+  """	if clientCtx, ok := ctx.Value(&clientContextKey).(context.Context); ok {
+		return clientCtx
+	}
+	return nil""", """	var orig context.Context
+	for {
+		clientCtx, ok := ctx.Value(&clientContextKey).(context.Context)
+		if !ok {
+			return orig
+		}
+		orig, ctx = clientCtx, clientCtx
+	}""", "R4", "accessor-single-lookup", "ClientContext loops to the outermost caller")
+silent_all("server-context-built-by-deferred-free-helper", [
+    {"file": "inprocgrpc/in_process.go", "old": "	svrCtx := makeServerContext(ctx)\n\n	defer cancel()", "new": "	svrCtx := handlerContext(ctx)\n\n	defer cancel()"},
+    {"file": "inprocgrpc/in_process.go", "old": "func makeServerContext(ctx context.Context) context.Context {", "new": """func handlerContext(ctx context.Context) context.Context {
+	return makeServerContext(ctx)
+}
+
+func makeServerContext(ctx context.Context) context.Context {"""},
+], "the unary path builds the server context through one more synchronous helper", ["C10", "C04", "C13"])
+
 # ------------------------------------------------------------------ wave-2 rules (C15-C20)
 v("C15", "methods-scratch-slice-reused", "server.go",
   """	for _, svc := range m {
